@@ -27,6 +27,18 @@ mod verif_search {
                 }
             } }
         } } }
+        // accessors carry what the card was built from; from_data accepts exactly data of the card's size
+        for dc in 1..=3u8 { for h in 1..=5u8 { for w in 1..=5u8 {
+            n += 1;
+            let size = dc as usize * h as usize * w as usize;
+            if MatrixCard::get_matrix_card_size(dc, h, w) != size { println!("REPLAY-FAIL c18_cells get_matrix_card_size({}, {}, {}) is not {}", dc, h, w, size); return; }
+            let data: Vec<u8> = (0..size).map(|i| ((i * 7 + 3) % 10) as u8).collect();
+            let c = card(dc, h, w);
+            if c.data() != &data[..] || c.width() != w || c.height() != h || c.digit_count() != dc { println!("REPLAY-FAIL c18_cells accessors of a {}x{} card with {} digits: width={} height={} digit_count={} / data differs", w, h, dc, c.width(), c.height(), c.digit_count()); return; }
+            for wrong in [size + 1, size.saturating_sub(1)] { if wrong != size && MatrixCard::from_data(dc, h, w, vec![1u8; wrong]).is_some() { println!("REPLAY-FAIL c18_cells from_data accepted {} bytes for a card of {}", wrong, size); return; } }
+            let fresh = MatrixCard::new(dc, h, w);
+            if fresh.data().len() != size || fresh.width() != w || fresh.height() != h || fresh.digit_count() != dc { println!("REPLAY-FAIL c18_cells MatrixCard::new({}, {}, {}) has the wrong shape", dc, h, w); return; }
+        } } }
         println!("REPLAY-STATS c18_cells inputs={} all-ok", n);
     }
     /// rounds 0..count-1 give distinct coordinates on the card; any other round gives None, never a panic
@@ -71,6 +83,12 @@ mod verif_search {
                 }
             }
             n += 1;
+            let good = v.clone().into_proof();
+            // every single-byte alteration of the correct proof must be refused (the comparison covers all 20 bytes)
+            for pos in 0..good.len() { for mask in [0x01u8, 0x80, 0xff] {
+                let mut alt = good; alt[pos] ^= mask;
+                if verify_matrix_card_hash(&c, count, seed, &key, &alt) { println!("REPLAY-FAIL c18_agree digit_count={} height={} width={} count={} seed={} a proof altered in byte {} (xor {:#04x}) was accepted", dc, h, w, count, seed, pos, mask); return; }
+            } }
             let ok = verify_matrix_card_hash(&c, count, seed, &key, &v.into_proof());
             let bad = verify_matrix_card_hash(&c, count, seed, &key, &wrong.into_proof());
             if !ok || bad { println!("REPLAY-FAIL c18_agree digit_count={} height={} width={} count={} seed={} accepted_correct={} accepted_wrong={}", dc, h, w, count, seed, ok, bad); return; }
